@@ -43,6 +43,17 @@ pub struct Case {
     pub router: bool,
     pub alias_max: u16,
     pub pubs: Vec<Pub>,
+    /// server: the handshake service writes this Topic Alias Maximum into the CONNACK (it is then the advertised one,
+    /// whatever the configured value); client: the peer's CONNACK carries this value (it limits the other direction only)
+    #[serde(default)]
+    pub other_max: Option<u16>,
+}
+
+impl Case {
+    /// the Topic Alias Maximum the endpoint advertised for the publishes it receives
+    fn advertised(&self) -> u16 {
+        if self.server { self.other_max.unwrap_or(self.alias_max) } else { self.alias_max }
+    }
 }
 
 fn fail(c: &Case, rule: &str, detail: String) -> Failure {
@@ -78,6 +89,14 @@ fn route_for(c: &Case, topic: &str) -> u8 {
 pub async fn run_case(c: Case) -> Result<CaseInfo, Failure> {
     let mut cfg = Cfg5 { router: c.router, max_topic_alias: c.alias_max, ..Default::default() };
     cfg.connect.topic_alias_max = if c.alias_max == 0 { None } else { Some(c.alias_max) };
+    if let Some(o) = c.other_max {
+        if c.server {
+            cfg.hs_with = Some(crate::bed::v5::Override5 { max_qos: None, receive_max: None, topic_alias_max: Some(o), max_packet_size: None, session_expiry: None });
+        } else {
+            cfg.connack.topic_alias_max = (o != 0).then_some(o);
+        }
+    }
+    let adv = c.advertised();
     let app = App::new();
     let mut conns: Vec<Eut5> = Vec::new();
     if c.server {
@@ -108,7 +127,7 @@ pub async fn run_case(c: Case) -> Result<CaseInfo, Failure> {
             continue;
         }
         both[ci.min(1)] = true;
-        let alias = alias_of(p, c.alias_max);
+        let alias = alias_of(p, adv);
         let topic = TOPICS[usize::from(p.topic) % 3];
         let tag = i as u16 + 1;
         let mut pb = s5::Publish5 { qos: p.qos % 2, pid: (p.qos % 2 == 1).then_some(tag), payload_len: 2, ..Default::default() };
@@ -121,7 +140,7 @@ pub async fn run_case(c: Case) -> Result<CaseInfo, Failure> {
             Form::Bind => {
                 pb.topic = topic.to_owned();
                 pb.topic_alias = Some(alias);
-                if alias > c.alias_max && !maps[ci].contains_key(&alias) {
+                if alias > adv && !maps[ci].contains_key(&alias) {
                     Err("alias above the advertised maximum")
                 } else {
                     if maps[ci].get(&alias).is_some_and(|t| t != topic) {
@@ -169,7 +188,7 @@ pub async fn run_case(c: Case) -> Result<CaseInfo, Failure> {
                     return Err(Failure::new(
                         "invalid-alias-delivered",
                         format!("C17/{}/invalid-alias-delivered/{}", if c.server { "v5-server" } else { "v5-client" }, if why.contains("maximum") { "above-maximum" } else { "unbound" }),
-                        format!("publish #{i} ({why}: alias {alias}, advertised maximum {}) reached the handler with topic {:?}", c.alias_max, enters.last().map(|e| e.1.topic.clone())),
+                        format!("publish #{i} ({why}: alias {alias}, advertised maximum {}) reached the handler with topic {:?}", adv, enters.last().map(|e| e.1.topic.clone())),
                     ));
                 }
                 // the connection ends with a protocol error
@@ -191,7 +210,7 @@ pub async fn run_case(c: Case) -> Result<CaseInfo, Failure> {
         e.settle().await;
     }
     let nt = labels.contains(&"alias-only-resolved") || labels.contains(&"rebind") || (both[0] && both[1]);
-    let mut info = if nt { CaseInfo::nontrivial(&(c.server, c.router, c.alias_max, &trace)) } else { CaseInfo::trivial() };
+    let mut info = if nt { CaseInfo::nontrivial(&(c.server, c.router, c.alias_max, c.other_max, &trace)) } else { CaseInfo::trivial() };
     labels.sort_unstable();
     labels.dedup();
     info.labels = labels;
@@ -260,8 +279,13 @@ fn pub_strategy() -> BoxedStrategy<Pub> {
 }
 
 fn case_strategy(server: bool) -> BoxedStrategy<Case> {
-    (any::<bool>(), prop::sample::select(if server { vec![0u16, 2, 16] } else { vec![0u16, 2, 16, 32] }), prop::collection::vec(pub_strategy(), 1..11))
-        .prop_map(move |(router, alias_max, pubs)| Case { server, router, alias_max, pubs })
+    (
+        any::<bool>(),
+        prop::sample::select(if server { vec![0u16, 2, 16] } else { vec![0u16, 2, 16, 32] }),
+        prop::collection::vec(pub_strategy(), 1..11),
+        prop::sample::select(vec![None, None, None, Some(0u16), Some(1), Some(8), Some(40), Some(48)]),
+    )
+        .prop_map(move |(router, alias_max, pubs, other_max)| Case { server, router, alias_max, pubs, other_max })
         .boxed()
 }
 
@@ -292,8 +316,8 @@ fn exhaustive(ctx: &Ctx) -> Stats {
             while idx < total {
                 let mut x = idx;
                 let pubs: Vec<Pub> = (0..len).map(|_| { let p = alphabet[x % a]; x /= a; p }).collect();
-                for (server, router, alias_max) in [(true, false, 2u16), (true, true, 16), (false, false, 2), (false, true, 32)] {
-                    work.push(Case { server, router, alias_max, pubs: pubs.clone() });
+                for (server, router, alias_max, other_max) in [(true, false, 2u16, None), (true, true, 16, None), (false, false, 2, None), (false, true, 32, None), (true, false, 2, Some(3u16)), (false, false, 2, Some(1u16))] {
+                    work.push(Case { server, router, alias_max, pubs: pubs.clone(), other_max });
                 }
                 idx += WORKERS;
             }
@@ -325,7 +349,7 @@ pub fn run(ctx: &Ctx, started: Instant) -> i32 {
         level: "exploration",
         rule: "exhaustive: every history of <=3 (thorough <=4) publishes on one connection over {topic only, bind, use} x topics {t/a,t/b} x aliases {1, max, max+1} for server (plain, max 2; router, max 16) and client \
                (unrouted, CONNECT max 2; ClientRouter, max 32); random: 1..10 publishes over 3 topics x aliases {1,2,max,max+1} x QoS 0/1 interleaved on two connections of one server factory, Topic Alias Maximum {0,2,16} \
-               (client {0,2,16,32}), with and without router; plus: alias bound or rebound by a PUBLISH that is dropped after the application closed the connection (handle_qos_after_disconnect), then used. Model: per-connection alias map; handler must see the resolved topic and the route the resolved topic selects; unbound / above-maximum aliases end the \
+               (client {0,2,16,32}), with and without router, with the configured / CONNECT value advertised or (server) a different value written into the CONNACK by the handshake service, (client) a different value in the peer's CONNACK; plus: alias bound or rebound by a PUBLISH that is dropped after the application closed the connection (handle_qos_after_disconnect), then used. Model: per-connection alias map; handler must see the resolved topic and the route the resolved topic selects; unbound / above-maximum aliases end the \
                connection with a protocol error and never reach a handler. Non-trivial = an alias-only publish after a binding, a rebind, or traffic on both connections; distinct = (role, router, max, per-publish (conn, form, ok))"
             .into(),
         exhaustive: true,
